@@ -433,7 +433,11 @@ func loadHVtmx(hheaRaw, htmxRaw []byte, numGlyphs int) (*tables.Hhea, tables.Hmt
 		return nil, tables.Hmtx{}, err
 	}
 
-	hmtx, _, err := tables.ParseHmtx(htmxRaw, int(hhea.NumOfLongMetrics), numGlyphs-int(hhea.NumOfLongMetrics))
+	sideBearingsCount := numGlyphs - int(hhea.NumOfLongMetrics)
+	if sideBearingsCount < 0 { // invalid font: more metrics than glyphs
+		sideBearingsCount = 0
+	}
+	hmtx, _, err := tables.ParseHmtx(htmxRaw, int(hhea.NumOfLongMetrics), sideBearingsCount)
 	if err != nil {
 		return nil, tables.Hmtx{}, err
 	}
